@@ -106,6 +106,7 @@ pub fn gen_cgr_case(rng: &mut Rng, tier: &str, prop: &str, k: usize) -> Case {
             "stdin" => stdin,
             "bad_record" => bad,
             "order" => if rng.chance(1, 2) { 0 } else { rng.range(1, 1 << 40) },
+            "stale" => if rng.chance(1, 8) { rng.range(1, 1 << 40) } else { 0 },
         },
         extra: vec![],
     }
@@ -187,6 +188,9 @@ impl Engine for C11 {
         let dir = sb.fresh("c11");
         let cfg = CgrCfg::from_params(&case.params);
         let out_path = dir.join("out.cgr");
+        if stale_output(&out_path, case.params.get("stale").and_then(|v| v.as_u64()).unwrap_or(0)) {
+            out.probe("stale_output_file", 1);
+        }
         let (r, ro) = run_cgr(
             &dir,
             "in",
@@ -294,7 +298,7 @@ impl Engine for C11 {
     }
 
     fn required_probes(&self) -> Vec<&'static str> {
-        vec![
+        vec!["stale_output_file", 
             "rejection_case",
             "exact_dyadic_points_checked",
             "points_beyond_exact_range",
